@@ -199,7 +199,7 @@ def model_to_abstract(model, csv_name="input.csv"):
                     args.append({"name": p, "value": to_value(r, ref=True)})
             for k, v in node["params"].items():
                 args.append({"name": k, "value": to_value(v)})
-        cmds.append({"result": node["name"], "command": node["cmd"], "args": args})
+        cmds.append({"result": node["name"], "command": node["cmd"], "args": M.permute_args(args, node.get("arg_perm"))})
     return {"nl": "\n", "commands": cmds}
 
 
